@@ -25,24 +25,24 @@ type c08Entry struct {
 }
 
 type c08Step struct {
-	Kind      string     `json:"kind"` // save | save-pipeline
-	Name      []int      `json:"name,omitempty"` // save-pipeline: first argument
-	Cmd       []int      `json:"cmd"`
-	Desc      []int      `json:"desc"`    // save: second argument; save-pipeline: --description value (may be empty = not given)
-	HasDesc   bool       `json:"has_desc"`
-	Keys      [][]int    `json:"keys"`
-	Niche     []int      `json:"niche"`
-	Platforms [][]int    `json:"platforms"`
-	Pipeline  bool       `json:"pipeline"`
+	Kind      string  `json:"kind"`           // save | save-pipeline
+	Name      []int   `json:"name,omitempty"` // save-pipeline: first argument
+	Cmd       []int   `json:"cmd"`
+	Desc      []int   `json:"desc"` // save: second argument; save-pipeline: --description value (may be empty = not given)
+	HasDesc   bool    `json:"has_desc"`
+	Keys      [][]int `json:"keys"`
+	Niche     []int   `json:"niche"`
+	Platforms [][]int `json:"platforms"`
+	Pipeline  bool    `json:"pipeline"`
 	// observed
 	Exit     int        `json:"exit"`
 	Panic    bool       `json:"panic"`
 	Success  bool       `json:"success"`
 	LoadErr  bool       `json:"load_err"`
-	Book     []c08Entry `json:"book"`       // notebook re-loaded after the step
-	Token    []int      `json:"token"`      // a content word of the saved command (nil: none)
-	Found    bool       `json:"found"`      // the next search for that word has the saved entry among its results
-	MergedOK bool       `json:"merged_ok"`  // the searched database is main entries followed by notebook entries
+	Book     []c08Entry `json:"book"`      // notebook re-loaded after the step
+	Token    []int      `json:"token"`     // a content word of the saved command (nil: none)
+	Found    bool       `json:"found"`     // the next search for that word has the saved entry among its results
+	MergedOK bool       `json:"merged_ok"` // the searched database is main entries followed by notebook entries
 }
 
 type c08Case struct {
